@@ -783,24 +783,19 @@ fn run_str(s: &W3Script, bump: &'static Bump, ck: &mut Ck, stats: &mut Stats) ->
             }
         }
         TOp::StrCollectIn(n) => {
-            let parts = ["é", "ab", "語", "😀", "z"];
+            let parts = ['é', 'a', '語', '😀', 'z'];
             let n = *n;
-            let it = (0..n).map(|i| {
+            let chars = (0..n).map(|i| {
                 let _g = harness_scope();
                 tick(TICK_ITER);
                 parts[i % parts.len()]
             });
             if n % 2 == 0 {
-                let chars = (0..n).map(|i| {
-                    let _g = harness_scope();
-                    tick(TICK_ITER);
-                    parts[i % parts.len()].chars().next().unwrap()
-                });
                 b_call(|| chars.collect_in::<BString>(bump)).map(|x| {
                     second = Some(x);
                 })
             } else {
-                b_call(|| BString::from_iter_in(it, bump)).map(|x| {
+                b_call(|| BString::from_iter_in(chars, bump)).map(|x| {
                     second = Some(x);
                 })
             }
